@@ -173,7 +173,23 @@ PROPS['C20'] = dict(
     exhaustive={'quick': False, 'thorough': False},
     assumptions=['unreadable/unparsable documents and an unusable shell (exit status 1) are exercised by dedicated end-to-end cases only in the thorough tier'],
 )
-PROPS['C16']['streams'] = lambda tier: config_streams(tier) + [exec_stream(tier)]
+def cfgcli_stream(tier):
+    n = {'quick': 160, 'extended': 800, 'thorough': 6000}[tier]
+    return dict(name='cli-layers', harness=['cfgcli', str(n), '{seed}', '{shard}', '{nshards}'], driver='cfgcli', timeout=3000)
+
+
+PROPS['C16']['streams'] = lambda tier: config_streams(tier) + [exec_stream(tier), cfgcli_stream(tier)]
+PROPS['C16']['needs_scrut_bin'] = True
+PROPS['C16']['theorems'].append('C16_env_observed_unless_carried')
+PROPS['C16']['tags'] = {'Q': 'cfgcli'}
+PROPS['C16']['corr_kinds'] = ['DIFF:']
+PROPS['C16']['case_format'] += ('   Q <command-line layer>|<document;document: role m main p/a prepended/appended by the front-matter P/A by flags:<defaults layer>:<inline layer of each test, /-separated>>|exit|'
+                                '<title=lines the failing test was validated on: O stdout line, E stderr line, + = CR kept>|<id|VA|VB|VC|VD as the test saw them>')
+PROPS['C16']['rule'] += ('; cli-layers: the real `scrut test -r json` on a main document with front-matter defaults, 1-3 tests with inline configuration, prepended/appended documents (front-matter and flags) with their own defaults, '
+                         '--[no-]combine-output / --[no-]keep-output-crlf; every test prints CR LF lines to stdout and stderr, fails on purpose and records four environment variables, so the stream, the CR LF translation and each variable it really ran with are observed')
+PROPS['C16']['manifest']['text'] += (' End to end, the real binary is run on layered documents (flags, inline, defaults, prepended/appended documents) and the stream, CR LF handling and environment each test case observably ran with are compared with the proved precedence. '
+                                     'Known finding: a variable exported by an earlier test case shadows the configuration of a later one (the restored shell state is sourced after the process environment is set).')
+
 
 
 def escape_streams(tier):
